@@ -44,6 +44,7 @@ type knownFn struct {
 	Params []string `json:"params,omitempty"` // parameter names in order ("" when unnamed)
 	Calls  []string `json:"calls"`
 	Writes []string `json:"writes,omitempty"` // receiver fields the body assigns directly (outfield.go)
+	Lits   []knownLit `json:"lits,omitempty"`  // function literals in source order (litalias.go)
 }
 
 // declParamNames: the parameter names of a declaration, flattened, in order.
@@ -196,7 +197,7 @@ func genKnownFuncs(repo string) (map[string]knownFn, error) {
 		rel, _ := filepath.Rel(repo, filepath.Dir(p))
 		for _, d := range f.Decls {
 			if fd, ok := d.(*ast.FuncDecl); ok {
-				keys[funcDeclKey(rel, fd)] = knownFn{File: filepath.Base(p), Sig: declSig(fset, fd), Params: declParamNames(fd), Calls: declCalls(fd), Writes: declWrites(fd)}
+				keys[funcDeclKey(rel, fd)] = knownFn{File: filepath.Base(p), Sig: declSig(fset, fd), Params: declParamNames(fd), Calls: declCalls(fd), Writes: declWrites(fd), Lits: declLits(fset, fd.Body)}
 			}
 		}
 		return nil
